@@ -97,7 +97,9 @@ def corpus_games():
         out.append((dict(rewards=[0, 2, 13, 0, 0], players=[PR, PR, PR, PR, PR],
                          transition_list=[[(0.5, 1), (0.5, 3)], [(w, 2), (1 - w, 4)], [(1, 3)], [(1, 3)], [(1, 4)]], final_states=[3]),
                     dict(fr=[[Fr(1, 2), Fr(1, 2)], [Fr(w), Fr(1 - w)], [Fr(1)], [Fr(1)], [Fr(1)]], style="corpus")))
-    for row in ([(0.0, 4), (1.0, 2)], [(0.5, 2), (0.0, 4), (0.5, 5), (0.0, 4)], [(0.0, 4), (0.0, 4), (1, 5)]):
+    for row in ([(0.0, 4), (1.0, 2)], [(0.5, 2), (0.0, 4), (0.5, 5), (0.0, 4)], [(0.0, 4), (0.0, 4), (1, 5)],
+                # ... and a zero-weight transition into a LIVE state: it is not dead, so it stays, in place, with weight 0
+                [(0.0, 5), (0.5, 2), (0.5, 4)], [(0.5, 2), (0.0, 5), (0.5, 4)], [(0.0, 5), (1.0, 2)]):
         out.append((dict(rewards=[0, 1, 3, 0, 0, 5], players=[P1, PR, PR, PR, PR, PR],
                          transition_list=[[("a", 1), ("b", 3)], row, [(1, 3)], [(1, 3)], [(1, 4)], [(1, 3)]], final_states=[3]),
                     dict(fr=[None, [Fr(x) for x, _ in row], [Fr(1)], [Fr(1)], [Fr(1)], [Fr(1)]], style="corpus")))
